@@ -22,6 +22,8 @@ Record case_t := {
   c_cfg : adcfg; c_procs : list (list adevent); c_nloci : nat;
   c_nodes : list Z; c_edges : list (Z * Z); c_init : list (Z * Z);
   c_maxtime : Q; c_sync : bool;
+  c_fuel : nat;      (* iterations of the scheduler loop the implementation can have made at most: one more than the
+                        randoms it consumed (stochastic), the number of timesteps below the maximum time (synchronous) *)
   c_rands : list Q; c_lns : list Q; c_draws : list nat;    (* the scheduler's oracle *)
   c_adraws : list nat;                                     (* ranks drawn inside add, in order *)
   o_snaps : list osnap;
@@ -32,8 +34,8 @@ Record case_t := {
 
 Definition model_run (c : case_t) : result adworld :=
   let tb := ad_table (c_cfg c) (c_procs c) (c_nloci c) (c_nodes c) (c_edges c) (c_init c) (c_maxtime c) (c_adraws c) in
-  if c_sync c then sync_run tb 4000 4000 (c_rands c) (c_draws c)
-  else stoch_run tb 4000 4000 (c_rands c) (c_lns c) (c_draws c).
+  if c_sync c then sync_run tb 8 (c_fuel c) (c_rands c) (c_draws c)
+  else stoch_run tb 8 (c_fuel c) (c_rands c) (c_lns c) (c_draws c).
 
 Definition zset_eqb (a b : list Z) : bool := set_eqb Z.eqb a b && Nat.eqb (length a) (length b).
 
